@@ -25,10 +25,11 @@ CONSTANTS
   Queues,       \* queue names
   Configs,      \* set of [I : [Hooks -> Nat], B : [Hooks -> Nat], QS : [Hooks -> SUBSET Queues]]; I[h] = 0: no settings
   Sources,      \* where a task comes from ("kube", "sched"); observation only
+  Observed,     \* the hooks whose start times are kept as history (the property is evaluated for them)
   Horizon,      \* ticks
-  MaxLen,       \* bound on the length of a queue
-  MaxPerTick,   \* arrivals per tick (size of a burst)
-  MaxArrivals,  \* arrivals per behaviour
+  MaxLen,       \* bound on the length of a queue (= largest burst)
+  MaxPerTick,   \* arrivals per tick, 0 = bounded by MaxLen only
+  MaxArrivals,  \* arrivals per behaviour, 0 = bounded by MaxLen and Horizon only
   MaxFails,     \* failed runs per behaviour
   ArriveWeight, \* simulation only: relative frequency of arrivals
   Wiring        \* "ok" | "nowait" | "skipretry" | "fresh" | "shared"
@@ -39,8 +40,8 @@ VARIABLES
   credit,    \* per hook: bucket content in 1/I tokens
   queue,     \* per queue: sequence of [hook, fc] (HookRun tasks, fc = failure count)
   wpc,       \* per queue: "idle" | "wait" (inside RateLimitWait) | "run" (hook process running)
-  waited,    \* per queue: ticks spent in the current RateLimitWait
-  starts,    \* per hook with settings: start times so far (history)
+  waited,    \* per queue: has a tick passed during the current RateLimitWait (0/1)
+  starts,    \* per observed hook with settings: start times so far (history)
   arrivals, thisTick, fails,   \* bounds
   act        \* label of the last action (observation only, hidden by VIEW)
 
@@ -78,9 +79,11 @@ Init ==
 (* ---------- the environment ---------- *)
 Arrive(h, q, src) ==
   /\ q \in cfg.QS[h]
-  /\ Len(queue[q]) < MaxLen /\ thisTick < MaxPerTick /\ arrivals < MaxArrivals
+  /\ Len(queue[q]) < MaxLen
+  /\ (MaxPerTick = 0 \/ thisTick < MaxPerTick) /\ (MaxArrivals = 0 \/ arrivals < MaxArrivals)
   /\ queue' = [queue EXCEPT ![q] = Append(@, [hook |-> h, fc |-> 0])]
-  /\ arrivals' = arrivals + 1 /\ thisTick' = thisTick + 1
+  /\ arrivals' = IF MaxArrivals = 0 THEN 0 ELSE arrivals + 1
+  /\ thisTick' = IF MaxPerTick = 0 THEN 0 ELSE thisTick + 1
   /\ act' = <<"Arrive", h, q, src>>
   /\ UNCHANGED <<cfg, now, credit, wpc, waited, starts, fails>>
 
@@ -107,7 +110,7 @@ Acquire(q) ==
          e == Eff(h)
      IN /\ credit' = IF NoWait(t) THEN credit ELSE [credit EXCEPT ![e] = @ - I(e)]
         /\ queue' = [queue EXCEPT ![q] = <<t>> \o DropRun(Tail(@), h)]
-        /\ starts' = IF Limited(h) THEN [starts EXCEPT ![h] = Append(@, now)] ELSE starts
+        /\ starts' = IF Limited(h) /\ h \in Observed THEN [starts EXCEPT ![h] = Append(@, now)] ELSE starts
         /\ act' = <<"Start", q, h>>
   /\ wpc' = [wpc EXCEPT ![q] = "run"]
   /\ UNCHANGED <<cfg, now, waited, arrivals, thisTick, fails>>
@@ -127,7 +130,7 @@ Tick ==
   /\ \A q \in Queues : ~CanAcquire(q)
   /\ now' = now + 1
   /\ credit' = [h \in Hooks |-> IF Limited(h) THEN Min(Cap(h), credit[h] + 1) ELSE credit[h]]
-  /\ waited' = [q \in Queues |-> IF wpc[q] = "wait" THEN waited[q] + 1 ELSE waited[q]]
+  /\ waited' = [q \in Queues |-> IF wpc[q] = "wait" THEN 1 ELSE waited[q]]
   /\ thisTick' = 0
   /\ act' = <<"Tick">>
   /\ UNCHANGED <<cfg, queue, wpc, starts, arrivals, fails>>
@@ -156,9 +159,9 @@ TypeOK ==
   /\ \A q \in Queues : wpc[q] # "idle" => queue[q] # <<>>
 
 \* C18, first clause: any window of length T holds at most B + ceil(T/I) starts of the hook
-WindowBound == \A h \in Hooks : Limited(h) => WindowOK(starts[h], I(h), B(h), 0)
+WindowBound == \A h \in Observed : Limited(h) => WindowOK(starts[h], I(h), B(h), 0)
 \* the design is a token bucket (stricter; what the recorded traces are compared with as conformance)
-BucketBound == \A h \in Hooks : Limited(h) => BucketOK(starts[h], I(h), B(h), 0)
+BucketBound == \A h \in Observed : Limited(h) => BucketOK(starts[h], I(h), B(h), 0)
 \* C18, second clause: a run of a hook without settings spends no time in the limiter
 Unthrottled == \A q \in Queues : (wpc[q] = "wait" /\ ~Limited(Head(queue[q]).hook)) => waited[q] = 0
 \* a run of a hook with settings waits only while the bucket is short of a token
